@@ -131,3 +131,124 @@ func VerifC20Protected() {
 	vsymAssert(rec != nil && rec.Name == ids.GluonRecoveryMailboxName && len(rec.Rows) == 0, "recovery mailbox untouched")
 	vsymAssert(len(a.Rows) == 1, "source mailbox untouched")
 }
+
+// ---- recovery cycle: APPEND failures, MOVE / COPY out of the recovery mailbox, re-APPEND of the same bytes ----
+
+const verifLitUnhashable = "Content-Type: text/plain\r\nContent-Transfer-Encoding: base64\r\nSubject: three\r\n\r\nSGVsbG8\r\n"
+
+// VerifC20Cycle: whatever the remote does, after a refused (non size) APPEND the bytes are in the recovery mailbox -
+// also when the same bytes were recovered before and have been moved out since, when the literal carries the
+// internal-ID header of a live message, and when the literal cannot be hashed.
+func VerifC20Cycle() {
+	k := vsymParam("k")
+	w := verifNewWorld(limits.DefaultLimits())
+	w.conn.faultBudget = vsymParam("faults")
+	a := w.db.AddBox("A", "mb-A", 2)
+	b := w.db.AddBox("B", "mb-B", 3)
+	rec := w.db.BoxByID(w.user.recovery.InternalID)
+	// a live message in A, stored with its internal-ID header (as FETCH BODY[] would return it)
+	m0 := w.addMessage(a, 1)
+	known := []byte(ids.InternalIDKey + ": " + m0.InternalID.String() + "\r\n" + verifLiterals[0])
+	w.store.data[m0.InternalID] = known
+	lits := [][]byte{[]byte(verifLiterals[0]), []byte(verifLiterals[1]), known, []byte(verifLitUnhashable)}
+
+	st := w.newState(1)
+	ctx := ctxFor(st)
+	var mboxB *Mailbox
+	if err := st.Select(ctx, "B", func(m *Mailbox) error { mboxB = m; return nil }); err != nil {
+		panic(err)
+	}
+	st2 := w.newState(2)
+	ctx2 := ctxFor(st2)
+	var mboxRec *Mailbox
+	if err := st2.Select(ctx2, ids.GluonRecoveryMailboxName, func(m *Mailbox) error { mboxRec = m; return nil }); err != nil {
+		panic(err)
+	}
+	all := []command.SeqRange{{Begin: 1, End: 0}}
+	// "the same message": gluon identifies messages by a hash that ignores the internal-ID header, so literal 2 is
+	// literal 0; the literal that cannot be hashed cannot be identified at all (kept again every time)
+	class := []int{0, 1, 0, 3}
+	inRec := func(li int) int {
+		n := 0
+		for _, r := range rec.Rows {
+			stored, err := w.store.Get(r.Msg)
+			if err != nil {
+				continue
+			}
+			for lj := range lits {
+				if class[lj] == class[li] && bytes.Equal(stored, lits[lj]) {
+					n++
+					break
+				}
+			}
+		}
+		return n
+	}
+	for step := 0; step < k; step++ {
+		switch vsymChoice("event", 3) {
+		case 0: // APPEND to B
+			li := vsymChoice("literal", len(lits))
+			lit := lits[li]
+			rowsB := len(b.Rows)
+			had := inRec(li)
+			uid, err := mboxB.Append(ctx, lit, imap.NewFlagSet(), time0())
+			if err == nil {
+				vsymCover("cycle-append-ok")
+				found := false
+				for _, r := range b.Rows {
+					if r.UID == uid {
+						stored, gerr := w.store.Get(r.Msg)
+						found = gerr == nil && bytes.HasSuffix(stored, []byte(verifLiterals[0])) == (class[li] == 0) && (class[li] == 0 || bytes.HasSuffix(stored, lit))
+					}
+				}
+				vsymAssert(found, "OK: the message is in the target mailbox under the announced UID")
+				vsymAssert(len(b.Rows) >= rowsB, "OK: the target mailbox loses nothing")
+				vsymAssert(inRec(li) == had, "OK: nothing goes to the recovery mailbox")
+			} else {
+				vsymCover("cycle-append-refused")
+				vsymAssert(len(b.Rows) == rowsB, "refused APPEND leaves the target mailbox unchanged")
+				if had == 0 {
+					vsymAssert(inRec(li) == 1, "refused message is kept (byte for byte) in the recovery mailbox")
+				} else if class[li] == 3 {
+					vsymAssert(inRec(li) >= had, "a refused message stays in the recovery mailbox")
+				} else {
+					vsymAssert(inRec(li) == had, "a message the recovery mailbox already holds is kept once")
+				}
+			}
+		case 1, 2: // MOVE / COPY everything out of the recovery mailbox into A
+			w.deliverAll(1)
+			if _, err := st2.flushResponses(ctx2, true); err != nil {
+				vsymAssert(false, "flush failed")
+			}
+			if len(rec.Rows) == 0 {
+				vsymAssume(false)
+			}
+			rowsA, rowsRec := len(a.Rows), len(rec.Rows)
+			var err error
+			move := vsymChoice("move", 2) == 1
+			if move {
+				_, err = mboxRec.Move(ctx2, all, "A")
+			} else {
+				_, err = mboxRec.Copy(ctx2, all, "A")
+			}
+			if err == nil {
+				vsymCover("cycle-moved-out")
+				vsymAssert(len(a.Rows) == rowsA+rowsRec, "recovered messages arrive in the normal mailbox")
+				if move {
+					vsymAssert(len(rec.Rows) == 0, "MOVE empties the recovery mailbox")
+				} else {
+					vsymAssert(len(rec.Rows) == rowsRec, "COPY keeps the recovered messages")
+				}
+			} else {
+				vsymAssert(len(a.Rows) == rowsA && len(rec.Rows) == rowsRec, "a failed MOVE/COPY out of the recovery mailbox changes nothing")
+			}
+		}
+		// the recovery mailbox is listed exactly while it holds messages
+		var listed map[string]Match
+		if err := st.List(ctx, "", "*", false, func(m map[string]Match) error { listed = m; return nil }); err != nil {
+			vsymAssert(false, "LIST failed")
+		}
+		_, shown := listed[ids.GluonRecoveryMailboxName]
+		vsymAssert(shown == (len(rec.Rows) > 0), "the recovery mailbox is listed exactly while it is non-empty")
+	}
+}
